@@ -102,7 +102,17 @@ class _Walker:
             elif op is sc.ANY:
                 out.append("x")
             elif op is sc.IN:
-                out.append(_pick_in(av, self.flags))
+                lits = [a for o, a in av if o is sc.LITERAL]
+                if 2 <= len(lits) <= 4 and len(lits) == len(av):
+                    # a small set of literals is what the parser makes of a single-character alternation
+                    # such as (?:'|’): treat it as one
+                    bid = self._bid
+                    self._bid += 1
+                    if bid >= len(self.branches):
+                        self.branches.append(len(lits))
+                    out.append(chr(lits[min(self.choice.get(bid, 0), len(lits) - 1)]))
+                else:
+                    out.append(_pick_in(av, self.flags))
             elif op is sc.BRANCH:
                 bid = self._bid
                 self._bid += 1
@@ -139,31 +149,39 @@ class _Walker:
         return "".join(out)
 
 
-def alternatives(pattern: str, flags: int = 0, limit: int = 400):
-    """Yield candidate strings: the default derivation, one per branch alternative, one per optional repeat."""
+def alternatives(pattern: str, flags: int = 0, limit: int = 400, depth: int = 2):
+    """Yield candidate strings: the default derivation, one per alternative of every alternation - including
+    alternations nested inside a non-default alternative, up to `depth` simultaneous choices - and one per optional part.
+
+    Branch ids are assigned in encounter order, so a choice set is only extended with branches encountered after its
+    last chosen branch (their ids are stable under that choice set)."""
     try:
         tree = sp.parse(pattern, flags)
     except Exception:
         return
-    w = _Walker(flags)
-    base = w.gen(tree)
-    seen = {base}
-    yield base
-    nb = len(w.branches)
-    count = 1
-    for bid in range(nb):
-        for k in range(1, w.branches[bid]):
-            w2 = _Walker(flags)
-            w2.choice = {bid: k}
-            s = w2.gen(tree)
-            # choosing another alternative can uncover new branches; they keep their defaults
-            if s not in seen:
-                seen.add(s)
-                yield s
-                count += 1
-                if count >= limit:
-                    return
-    for rid, (lo, hi) in enumerate(w.repeats):
+    seen = set()
+    count = 0
+    queue = [()]  # tuples of (branch id, alternative)
+    base_repeats = None
+    while queue:
+        choice = queue.pop(0)
+        w = _Walker(flags)
+        w.choice = dict(choice)
+        s = w.gen(tree)
+        if base_repeats is None:
+            base_repeats = list(w.repeats)
+        if s not in seen:
+            seen.add(s)
+            yield s
+            count += 1
+            if count >= limit:
+                return
+        if len(choice) < depth:
+            last = choice[-1][0] if choice else -1
+            for bid in range(last + 1, len(w.branches)):
+                for k in range(1, w.branches[bid]):
+                    queue.append(choice + ((bid, k),))
+    for rid, (lo, hi) in enumerate(base_repeats or []):
         if lo == 0:
             w2 = _Walker(flags)
             w2.opt = {rid: 1}
